@@ -2328,3 +2328,203 @@ Proof.
   split; [|vm_compute; reflexivity].
   repeat constructor; cbn; intuition discriminate.
 Qed.
+
+(* ====================================================================================================
+   Reactor._single_stage: number-collision remapping against the molecules that take no part
+   ==================================================================================================== *)
+Theorem stage_remap_disjoint : forall new ignored out,
+  stage_remap new ignored = Ok out -> NoDup new ->
+  length out = length new /\ NoDup out /\ (forall x, In x out -> ~ In x ignored) /\
+  (forall i d, ~ In (nth i new d) ignored -> nth i out d = nth i new d).
+Proof.
+  intros new ignored out H Hnd. unfold stage_remap in H.
+  destruct (zinter new ignored) as [|c0 crest] eqn:Ei.
+  - inversion H; subst out. split; [reflexivity|]. split; [exact Hnd|]. split; [|reflexivity].
+    intros x Hx Hi. assert (Hin : In x (zinter new ignored)) by (apply zinter_In; split; assumption).
+    rewrite Ei in Hin. destruct Hin.
+  - destruct (zmax_list new) as [b|] eqn:Eb; [|discriminate].
+    assert (Hout : out = remap_ids (zip_count (c0 :: crest) (Z.max (zmax0 ignored) b + 1)) new) by congruence.
+    rewrite Hout, <- Ei.
+    apply (remap_collisions new ignored (zmax0 ignored) b Hnd).
+    + intros x Hx. unfold zmax0. destruct (zmax_list ignored) as [a|] eqn:Ea.
+      * apply (zmax_list_spec _ _ Ea). exact Hx.
+      * destruct ignored; [destruct Hx|discriminate].
+    + apply (zmax_list_spec _ _ Eb).
+Qed.
+
+(* it never raises, and a product that collides with nothing keeps its numbers *)
+Theorem stage_remap_total : forall new ignored, exists out, stage_remap new ignored = Ok out.
+Proof.
+  intros new ignored. unfold stage_remap. destruct (zinter new ignored) as [|c0 crest] eqn:Ei; [eexists; reflexivity|].
+  destruct new as [|x r]; [discriminate|]. cbn [zmax_list]. eexists; reflexivity.
+Qed.
+
+Theorem stage_remap_identity : forall new ignored,
+  (forall x, In x new -> ~ In x ignored) -> stage_remap new ignored = Ok new.
+Proof.
+  intros new ignored H. unfold stage_remap.
+  destruct (zinter new ignored) as [|c0 crest] eqn:Ei; [reflexivity|]. exfalso.
+  assert (Hin : In c0 (zinter new ignored)) by (rewrite Ei; left; reflexivity).
+  apply zinter_In in Hin. exact (H c0 (proj1 Hin) (proj2 Hin)).
+Qed.
+
+(* the products of one reaction: the patched product after the remap, and the untouched molecules, share no number *)
+Example stage_remap_example :
+  NoDup [1; 2; 3; 8; 9] /\ stage_remap [1; 2; 3; 8; 9] [8; 9; 10; 11] = Ok [1; 2; 3; 12; 13].
+Proof. split; [repeat constructor; cbn; intuition discriminate|vm_compute; reflexivity]. Qed.
+
+(* ====================================================================================================
+   _get_deleted does not depend on the numbering of the structure
+   ==================================================================================================== *)
+Section Rename.
+  Variable s : Z -> Z.
+  Hypothesis Hinj : forall a b, s a = s b -> a = b.
+
+  Lemma zget_rename_graph g a : zget (rename_graph s g) (s a) = option_map (map s) (zget g a).
+  Proof.
+    induction g as [|[v l] g IH]; cbn; [reflexivity|].
+    destruct (Z.eqb_spec (s a) (s v)) as [E|E], (Z.eqb_spec a v) as [E'|E']; try reflexivity.
+    - exfalso. apply E'. apply Hinj. exact E.
+    - subst. contradiction.
+    - exact IH.
+  Qed.
+
+  Lemma keys_rename_graph g : keys (rename_graph s g) = map s (keys g).
+  Proof. unfold keys, rename_graph. rewrite !map_map. reflexivity. Qed.
+
+  Lemma adj_rename g a b : adj (rename_graph s g) (s a) (s b) <-> adj g a b.
+  Proof.
+    unfold adj, gnbrs. rewrite zget_rename_graph. destruct (zget g a) as [l|]; cbn; [|tauto].
+    rewrite in_map_iff. split.
+    - intros (b' & E & Hb). apply Hinj in E. subst. exact Hb.
+    - intros Hb. exists b. split; [reflexivity|exact Hb].
+  Qed.
+
+  (* every neighbour of a renamed atom is a renamed neighbour *)
+  Lemma adj_rename_inv g a z : adj (rename_graph s g) (s a) z -> exists b, z = s b /\ adj g a b.
+  Proof.
+    unfold adj, gnbrs. rewrite zget_rename_graph. destruct (zget g a) as [l|]; cbn; [|intros []].
+    rewrite in_map_iff. intros (b & E & Hb). exists b. split; [symmetry; exact E|exact Hb].
+  Qed.
+
+  Lemma sym_rename g : sym_graph g = true -> sym_graph (rename_graph s g) = true.
+  Proof.
+    intros Hs. pose proof (sym_graph_sym g Hs) as Hsym.
+    unfold sym_graph. apply forallb_forall. intros [v' l'] Hin.
+    unfold rename_graph in Hin. apply in_map_iff in Hin. destruct Hin as ([v l] & E & Hin). cbn in E. inversion E; subst v' l'.
+    cbn [fst snd]. apply forallb_forall. intros b' Hb'. apply in_map_iff in Hb'. destruct Hb' as (b & <- & Hb).
+    apply zmem_In.
+    (* v is a key of g: its FIRST entry may differ from l if keys repeat; use the symmetry of g on the first entry *)
+    assert (Hvb : adj g b v).
+    { unfold sym_graph in Hs. rewrite forallb_forall in Hs. specialize (Hs (v, l) Hin). cbn in Hs.
+      rewrite forallb_forall in Hs. specialize (Hs b Hb). apply zmem_In in Hs. exact Hs. }
+    apply (adj_rename g b v). exact Hvb.
+  Qed.
+
+  Section Reach.
+    Variables (g : graph) (D D' : list Z).
+    Hypothesis HD : forall x, In x D' <-> exists y, In y D /\ x = s y.
+
+    Lemma notD_rename a : ~ In a D <-> ~ In (s a) D'.
+    Proof.
+      rewrite HD. split.
+      - intros H (y & Hy & E). apply Hinj in E. subst. contradiction.
+      - intros H Ha. apply H. exists a. split; [exact Ha|reflexivity].
+    Qed.
+
+    Lemma reach_rename a b : reach_av g D a b -> reach_av (rename_graph s g) D' (s a) (s b).
+    Proof.
+      induction 1 as [x Hx|x y z Hxy IH Ha Hz].
+      - apply ra_refl. apply notD_rename. exact Hx.
+      - eapply ra_step; [exact IH|apply adj_rename; exact Ha|apply notD_rename; exact Hz].
+    Qed.
+
+    Lemma reach_rename_inv a z : reach_av (rename_graph s g) D' (s a) z -> exists b, z = s b /\ reach_av g D a b.
+    Proof.
+      intros H. remember (s a) as a' eqn:Ea. revert a Ea.
+      induction H as [x Hx|x y z Hxy IH Ha Hz]; intros a Ea; subst.
+      - exists a. split; [reflexivity|]. apply ra_refl. apply notD_rename. exact Hx.
+      - destruct (IH a eq_refl) as (b & -> & Hab).
+        destruct (adj_rename_inv g b z Ha) as (c & -> & Hbc).
+        exists c. split; [reflexivity|]. eapply ra_step; [exact Hab|exact Hbc|apply notD_rename; exact Hz].
+    Qed.
+
+    Variables (K K' : list Z).
+    Hypothesis HK : forall x, In x K' <-> exists y, In y K /\ x = s y.
+
+    Lemma deleted_spec_rename x :
+      deleted_spec (rename_graph s g) D' K' x <-> exists y, x = s y /\ deleted_spec g D K y.
+    Proof.
+      unfold deleted_spec, detached, attached. split.
+      - intros [H|(HnD & (d' & n' & Hd' & Hdn & Hnx) & Hno)].
+        + apply HD in H. destruct H as (y & Hy & ->). exists y. split; [reflexivity|left; exact Hy].
+        + apply HD in Hd'. destruct Hd' as (d & Hd & ->).
+          destruct (adj_rename_inv g d n' Hdn) as (n & -> & Hdn0).
+          destruct (reach_rename_inv n x Hnx) as (y & -> & Hny).
+          exists y. split; [reflexivity|]. right. split; [apply notD_rename; exact HnD|]. split.
+          * exists d, n. auto.
+          * intros z Hyz HzK. apply (Hno (s z)); [apply reach_rename; exact Hyz|]. apply HK. exists z. auto.
+      - intros (y & -> & [H|(HnD & (d & n & Hd & Hdn & Hny) & Hno)]).
+        + left. apply HD. exists y. auto.
+        + right. split; [apply notD_rename; exact HnD|]. split.
+          * exists (s d), (s n). split; [apply HD; exists d; auto|]. split; [apply adj_rename; exact Hdn|apply reach_rename; exact Hny].
+          * intros z' Hz' Hk'. destruct (reach_rename_inv y z' Hz') as (z & -> & Hyz).
+            apply HK in Hk'. destruct Hk' as (k & Hk & E). apply Hinj in E. subst k. exact (Hno z Hyz Hk).
+    Qed.
+  End Reach.
+
+  Lemma zget_rename_match mapping p : zget (rename_match s mapping) p = option_map s (zget mapping p).
+  Proof. induction mapping as [|[k v] l IH]; cbn; [reflexivity|]. destruct (p =? k); [reflexivity|exact IH]. Qed.
+
+  Lemma map_image_rename mapping l : map_image (rename_match s mapping) l = option_map (map s) (map_image mapping l).
+  Proof.
+    induction l as [|p l IH]; cbn [map_image]; [reflexivity|].
+    rewrite zget_rename_match, IH. destruct (zget mapping p); cbn; [|reflexivity]. destruct (map_image mapping l); reflexivity.
+  Qed.
+
+  Lemma image_rename mapping l x : In x (image (rename_match s mapping) l) <-> exists y, In y (image mapping l) /\ x = s y.
+  Proof.
+    unfold image. rewrite map_image_rename. destruct (map_image mapping l) as [vs|]; cbn.
+    - rewrite nodup_In, in_map_iff. split.
+      + intros (y & <- & Hy). exists y. split; [apply nodup_In; exact Hy|reflexivity].
+      + intros (y & Hy & ->). exists y. split; [reflexivity|]. apply nodup_In in Hy. exact Hy.
+    - split; [intros []|intros (y & [] & _)].
+  Qed.
+
+  Lemma kept_rename mapping l x : In x (kept (rename_match s mapping) l) <-> exists y, In y (kept mapping l) /\ x = s y.
+  Proof.
+    unfold kept. rewrite zdiff_In. split.
+    - intros [Hx Hn]. unfold rename_match in Hx. rewrite map_map in Hx. apply in_map_iff in Hx. destruct Hx as ([k v] & <- & Hkv). cbn [fst snd] in *.
+      exists v. split; [|reflexivity]. apply zdiff_In. split; [apply in_map_iff; exists (k, v); split; [reflexivity|exact Hkv]|].
+      intros Hi. apply Hn. apply image_rename. exists v. auto.
+    - intros (y & Hy & ->). apply zdiff_In in Hy. destruct Hy as [Hy Hn]. split.
+      + unfold rename_match. rewrite map_map. apply in_map_iff in Hy. destruct Hy as ([k v] & <- & Hkv).
+        apply in_map_iff. exists (k, v). split; [reflexivity|exact Hkv].
+      + intros Hi. apply image_rename in Hi. destruct Hi as (z & Hz & E). apply Hinj in E. subst. contradiction.
+  Qed.
+
+  (* the set _get_deleted returns for a renumbered structure is the renumbered set: it does not depend on atom numbers *)
+  Theorem get_deleted_equivariant : forall g mapping to_del r r',
+    sym_graph g = true ->
+    (forall p, In p to_del -> exists v, zget mapping p = Some v /\ In v (keys g)) ->
+    get_deleted g mapping to_del = Ok r ->
+    get_deleted (rename_graph s g) (rename_match s mapping) to_del = Ok r' ->
+    forall x, In x r' <-> exists y, In y r /\ x = s y.
+  Proof.
+    intros g mapping to_del r r' Hs Hm E E'.
+    destruct (get_deleted_spec g mapping to_del Hs Hm) as (r1 & E1 & H1). rewrite E in E1. inversion E1; subst r1.
+    destruct (get_deleted_spec (rename_graph s g) (rename_match s mapping) to_del (sym_rename g Hs)) as (r2 & E2 & H2).
+    { intros p Hp. destruct (Hm p Hp) as (v & Ev & Hv). exists (s v). split; [rewrite zget_rename_match, Ev; reflexivity|].
+      rewrite keys_rename_graph. apply in_map. exact Hv. }
+    rewrite E' in E2. inversion E2; subst r2.
+    intros x. rewrite H2.
+    rewrite (deleted_spec_rename g (image mapping to_del) (image (rename_match s mapping) to_del) (image_rename mapping to_del)
+               (kept mapping to_del) (kept (rename_match s mapping) to_del) (kept_rename mapping to_del) x).
+    split; intros (y & A & B); exists y; [rewrite H1|rewrite <- H1]; tauto.
+  Qed.
+End Rename.
+
+Example equivariant_example :
+  (forall a b : Z, a + 10 = b + 10 -> a = b) /\
+  sorted_res (get_deleted (rename_graph (fun x => x + 10) wit2_g) (rename_match (fun x => x + 10) wit2_mapping) wit2_to_del) = Ok [12; 13; 14; 16].
+Proof. split; [intros; lia|vm_compute; reflexivity]. Qed.
